@@ -91,6 +91,19 @@ for {
 		YIELD(n)
 	}
 }`, "yielding-switch-ends-loop-body", "for:inf"),
+		G("acc-three-clause-loop-without-condition", `
+for i := 0; ; i++ {
+	if i == 3 {
+		break
+	}
+	YIELD(i)
+}
+for j := 0; ; j += 2 {
+	YIELD(j)
+	if j > 2 {
+		RETNIL
+	}
+}`, "for:3cn"),
 		G("acc-named-result-bare-return", `
 YIELD(1)
 if tr.B(1) {
